@@ -17,6 +17,46 @@ func ptr[T any](v T) *T { return &v }
 
 var theEnum = EnumEnv{Name: "Color", Prefix: "COLOR_", Options: []string{"RED", "GREEN", "BLUE", "DARK_RED"}}
 
+// genEnum: the enum of a compile unit: default or explicit prefix, options
+// written short or prefixed, an explicit UNSPECIFIED now and then, descriptions
+func genEnum(r *vh.Rand) EnumEnv {
+	e := EnumEnv{Name: "Color", Prefix: "COLOR_"}
+	if r.Chance(30) {
+		e.ExplicitPrefix = true
+		e.Prefix = vh.Pick(r, []string{"CLR_", "COLOR_", "C_"})
+	}
+	pool := []string{"RED", "GREEN", "BLUE", "DARK_RED", "X1"}
+	n := r.Range(2, len(pool))
+	for i := 0; i < n; i++ {
+		o := pool[i]
+		if r.Chance(25) {
+			o = e.Prefix + o
+		}
+		e.Options = append(e.Options, o)
+		d := ""
+		if r.Chance(30) {
+			d = genDesc(r)
+		}
+		e.OptDescs = append(e.OptDescs, d)
+	}
+	if r.Chance(20) {
+		e.Unspecified = "UNSPECIFIED"
+		if r.Bool() {
+			e.Unspecified = e.Prefix + "UNSPECIFIED"
+		}
+		if r.Chance(30) {
+			e.UnspecDesc = "nothing"
+		}
+		if r.Chance(12) {
+			e.Unspecified = "X_UNSPECIFIED" // another name ending in UNSPECIFIED: the reader takes its head for the prefix
+		}
+	}
+	if r.Chance(40) {
+		e.Desc = genDesc(r)
+	}
+	return e
+}
+
 // patterns of the one form the Coq correspondence can decide: ^[ranges]{n}$
 var patterns = []string{"^[a-z]{3}$", "^[0-9A-F]{4}$", "^[a-c0-2]{2}$", "^[A-Za-z]{1}$", "^[0-9]{5}$"}
 
@@ -148,7 +188,7 @@ func genIntRules(r *vh.Rand, k IKind) (*IntRules, string) {
 	return ir, class
 }
 
-func genFTy(r *vh.Rand, scope string) (FTy, string) {
+func genFTy(r *vh.Rand, scope string, env EnumEnv) (FTy, string) {
 	// scope "c12": types with validation semantics; "all": every type
 	n := 7
 	if scope == "all" {
@@ -199,9 +239,9 @@ func genFTy(r *vh.Rand, scope string) (FTy, string) {
 		if r.Chance(70) {
 			er := &EnumRules{}
 			name := func() string {
-				o := vh.Pick(r, theEnum.Options)
+				o := strings.TrimPrefix(vh.Pick(r, env.Options), env.Prefix)
 				if r.Chance(30) {
-					o = theEnum.Prefix + o
+					o = env.Prefix + o
 				}
 				return o
 			}
@@ -290,8 +330,8 @@ func genTxtRules(r *vh.Rand, vals []string) *TxtRules {
 
 // genProp04: a property over every field type, as array or map now and then,
 // with descriptions (now and then one the reader treats specially)
-func genProp04(r *vh.Rand, name string) genDecl {
-	gd := genProp(r, name, "all")
+func genProp04(r *vh.Rand, name string, env EnumEnv) genDecl {
+	gd := genProp(r, name, "all", env)
 	if gd.P.PK == PSingle && !gd.P.Opt && r.Chance(8) && gd.P.T.Kind != TOneof && gd.P.T.Kind != TAny {
 		gd.P.PK = PMap
 		if r.Chance(60) {
@@ -320,8 +360,8 @@ func genDesc(r *vh.Rand) string {
 	return strings.Join(w, " ")
 }
 
-func genProp(r *vh.Rand, name string, scope string) genDecl {
-	t, class := genFTy(r, scope)
+func genProp(r *vh.Rand, name string, scope string, env EnumEnv) genDecl {
+	t, class := genFTy(r, scope, env)
 	p := Prop{Name: name, T: t, Desc: genDesc(r)}
 	if r.Chance(30) && t.Kind != TAny && t.Kind != TOneof {
 		p.PK = PArray
